@@ -11,7 +11,7 @@ TITLES = {l["id"]: l["title"] for l in map(json.loads, open(os.path.join(ROOT, "
 CHECKS = {
  "C04": ("model_checking",
          "TLC proves, exhaustively on a small ring (window 3, ring 16, all histories of 7 counters; group table of 2 with 3 senders; window 5 / ring 64 in the thorough tier), that the window algorithm transcribed from dedup.rs (Layer I) only ever gives verdicts the property spec DedupProp (Layer P) allows; TLC-simulated behaviours of the same Layer I at the real scale (32-bit counters, window 16, 16+2 group senders) are replayed on the real Session::post_recv / GroupCtrStore and every observed (counter, verdict) is validated by TLC against Layer P. Right level: the property quantifies over all receive histories, which the small model exhausts and the replay carries to the real constants.",
-         "Trusted: TLC; the transcription is checked by the replay (matched_steps). Secure unicast counters do not roll over within a session. End-to-end (encrypted datagrams through Matter::run) is covered by the C03/C09 checks, here the session receive path is entered at Session::post_recv.",
+         "Trusted: TLC; the transcription is checked by the replay (matched_steps). Secure unicast counters do not roll over within a session. The secure-session behaviours are replayed twice: at Session::post_recv and end to end as encrypted datagrams through Matter::run of a real node.",
          "TLA+ refinement check (TLC) + TLC-generated behaviours replayed on the real code + TLC trace validation", "DESIGN.md section 4 C04"),
  "C12": ("model_checking",
          "TLC proves exhaustively (ring 32, epoch 3, up to 12-16 operations, up to 3-4 power cuts between any two steps, start boundaries next to the wrap) that the three counter machines transcribed from the code refine Layer P (NoReuse, CoveredBeforeUse); TLC-simulated schedules are replayed on the real Sessions / Events / Icd objects over a recording key-value store with the real epochs, and the recorded Store/Use/Restart traces are validated by TLC against Layer P.",
@@ -45,6 +45,10 @@ CHECKS = {
          "Layer P rules on the wire tap (MrpProp.tla TxOk / AllocOk): new messages of a sender on a session carry strictly increasing counters, a datagram with a counter seen before is bit-identical to the first one (so no two plaintexts under one nonce), freshly chosen session / exchange ids are not ids of live sessions / exchanges. TLC proves RetransIdentical on the MRP model (the piggy-backed ack of a rebuilt retransmission cannot differ with a conforming peer) and validates the tap of all C09 schedules (hundreds of runs forcing retransmissions of requests, responses and ack-carrying messages) plus a sweep of more than 2^16 exchange-id and session-id allocations with live exchanges and sessions.",
          "Trusted: TLC; byte identity is checked on interned datagram bytes. Handshake messages (Sigma / PAKE) are added by the C01 / C02 taps when those checks are present.",
          "TLA+ model checking (TLC) + TLC trace validation of the wire tap of fault schedules replayed on the real stacks", "DESIGN.md section 4 C15"),
+ "C03": ("model_checking",
+         "The receive side is a TLA+ reference (Packet.tla: a datagram is accepted iff a session is found by its id and encryption kind, it decrypts under that session's receive key with the session's stored peer identity in the nonce and the complete received header as associated data, and its counter is fresh); TLC enumerates session mode x message shape x payload length x 14 mutation classes and checks AcceptOnlyAuthentic on the reference. For each case the harness captures genuine datagrams from the real encoder, builds the concrete mutant (bit flips per header field / ciphertext / tag, truncation, extension, header transplant, re-addressing to another session, reflection, another source node, replay), injects it into the real receive path of a real node and checks: delivered iff authentic, a rejected datagram leaves the targeted session's snapshot (send counter, receive window, exchanges, key fingerprints) unchanged, and the genuine datagrams are still delivered with identical payload; plus every single-bit flip of a genuine datagram per mode and shape.",
+         "Trusted: the AEAD primitive; the snapshot hook. Unicast sessions with planted keys (CASE, PASE); group sessions only at the counter level (C04).",
+         "TLA+ reference receiver enumerated by TLC vs injection into the real receive path with before/after snapshots", "DESIGN.md section 4 C03"),
 }
 
 NOT_YET = "check not built yet in this tree (see DESIGN.md section 7 for the build order); not claimed"
